@@ -91,7 +91,7 @@ def oracle(ep, outs):
 
 def check(ctx):
     ctx.assumptions += [
-        "each admin operation holds the balancer write lock for its whole body, so it is one atomic step (lock-set fact from the source; concurrent histories are exercised under -race by the C12 check)",
+        "each admin operation holds the balancer write lock for its whole body, so it is one atomic step; concurrent histories are searched with real admin actors (each the sole owner of a name), strategy switches and traffic - a lost update or a wedged request shows as a listing that contradicts the answers an actor received",
         "the admin HTTP handlers add only JSON decoding and empty-field checks on top of AddBackend/RemoveBackend/SetStrategy (exercised by the C10 harness)",
     ]
     ok = C.prove(ctx, MODULES, THEOREMS)
@@ -100,6 +100,28 @@ def check(ctx):
     nep = 2000 if ctx.thorough() else 400
     episodes = C.load_corpus(ID) + [gen_episode(ctx.rng, ctx.thorough()) for _ in range(nep)]
     bad = d.check(episodes, oracle=oracle, label="admin")
+    # concurrent admin actors (each the sole owner of one backend name), strategy switches and
+    # traffic through the real admin mux: what an actor was told must be what the listing shows
+    from . import c12, c16
+    hel = c16.build(ctx) if hasattr(c16, "build") else None
+    if hel is None:
+        overlay = C.make_overlay(ctx, clock_pkgs=[], harness_pkgs=["cmd/helios"], hmap={"cmd/helios": "helios"}, tag="adm")
+        hel = C.go_test_build(ctx, "cmd/helios", overlay, name="helios")
+    runs = [{"VERIF_RACE_MS": str(3000 if ctx.thorough() else 900), "VERIF_RACE_SEED": str(ctx.seed * 3 + i),
+             "VERIF_RACE_STRATEGY": st, "VERIF_RACE_PROFILE": pr}
+            for i, (st, pr) in enumerate([(s_, p_) for s_ in (lbgen.STRATS if ctx.thorough() else lbgen.STRATS[:1])
+                                          for p_ in ("admin", "calm")])]
+    from concurrent.futures import ThreadPoolExecutor
+    with ThreadPoolExecutor(max_workers=4) as ex:
+        results = list(ex.map(lambda e: c12.run_workload(ctx, hel, "TestVerifRace", e), runs))
+    for env, (rc, out) in zip(runs, results):
+        cls = c12.classify(rc, out)
+        if cls and cls[0] in ("admin-consistency", "deadlock", "crash"):
+            C.violation(ctx, "concurrent-" + cls[0], {
+                "what": "concurrent admin actors + traffic against the real code: " + cls[0],
+                "test": "TestVerifRace", "env": env, "report": cls[1]})
+            break
+    ctx.cov["concurrent_admin_workloads"] = len(runs)
     kinds = {}
     nontriv = set()
     if bad == 0:
